@@ -49,6 +49,7 @@ func VerifHarness_C06_pipe() {
 		}
 		got += n
 		if err != nil {
+			verifAssert("C06.pipe.everythingDeliveredBeforeEnd", got == len(all))
 			verifAssert("C12.pipe.eofOnlyAfterEverything", err == io.EOF && got == len(all))
 			verifAssert("C12.pipe.cleanEOFMeansCloseNotifyOrBoundary", err == io.EOF)
 			sawEOF = true
@@ -136,13 +137,22 @@ func VerifHarness_C12_eof() {
 //
 //verif:harness props=C08,C12,C09,C03 paths=100000 reach=accepted,ccs,error
 func VerifHarness_C08_record_prehandshake() {
-	n := verifSplitInt("streamlen", 0, verifBound(12, 16))
-	stream := verifNondetBytes("stream", n)
-	if n >= 5 {
-		// the record length field is attacker-chosen: case split, contents stay symbolic
-		l := verifSplitInt("reclen", 0, n-4)
-		stream[3], stream[4] = byte(l>>8), byte(l)
+	// the stream: up to two records whose length fields are attacker-chosen case splits (contents symbolic),
+	// optionally cut short
+	l1 := verifSplitInt("reclen1", 0, 3)
+	stream := verifNondetBytes("rec1", 5+l1)
+	stream[3], stream[4] = 0, byte(l1)
+	if verifSplitInt("secondRecord", 0, 1) == 1 {
+		l2 := verifSplitInt("reclen2", 0, verifBound(2, 3))
+		r2 := verifNondetBytes("rec2", 5+l2)
+		r2[3], r2[4] = 0, byte(l2)
+		stream = append(stream, r2...)
 	}
+	if verifSplitInt("lengthFieldLies", 0, 1) == 1 {
+		stream[4] = byte(verifSplitInt("claimedLen", 0, 5))
+	}
+	n := verifSplitInt("cut", 0, len(stream))
+	stream = stream[:n]
 	tc := &verifConn{in: stream}
 	c := &Conn{conn: tc, config: &Config{Rand: verifRandSrc{}}}
 	c.vers = VersionTLCP
@@ -157,6 +167,12 @@ func VerifHarness_C08_record_prehandshake() {
 		c.hand.Write([]byte{1})
 	}
 	err := c.readRecordOrCCS(expectCCS)
+	// the record that may have been accepted: the first one, or the second when the first was a warning alert
+	// (dropped and retried)
+	off := 0
+	if l1 == 2 && n >= 7 && stream[0] == 21 && stream[4] == 2 && stream[5] == 1 && stream[6] != 0 {
+		off = 7
+	}
 	if err == nil {
 		verifReach("accepted")
 		verifAssert("C12.early.noAppDataBeforeHandshake", c.input.Len() == 0)
@@ -164,12 +180,12 @@ func VerifHarness_C08_record_prehandshake() {
 			verifReach("ccs")
 			verifAssert("C03.ccs.onlyWhenExpected", expectCCS)
 			verifAssert("C03.ccs.notAcrossPartialMessage", pending == 0)
-			verifAssert("C03.ccs.bodyIsOne", n >= 6 && stream[0] == 20 && stream[3] == 0 && stream[4] == 1 && stream[5] == 1)
+			verifAssert("C03.ccs.bodyIsOne", n >= off+6 && stream[off] == 20 && stream[off+3] == 0 && stream[off+4] == 1 && stream[off+5] == 1)
 			verifAssert("C08.ccs.seqReset", c.in.seq[0]|c.in.seq[1]|c.in.seq[2]|c.in.seq[3]|c.in.seq[4]|c.in.seq[5]|c.in.seq[6]|c.in.seq[7] == 0)
 		} else {
 			verifAssert("C08.record.handshakeRecordNonEmpty", c.hand.Len() > pending)
 			verifAssert("C08.record.noHandshakeWhenExpectingCCS", !expectCCS)
-			verifAssert("C08.record.typeIsHandshake", n >= 5 && stream[0] == 22)
+			verifAssert("C08.record.typeIsHandshake", n >= off+5 && stream[off] == 22)
 		}
 	} else {
 		verifReach("error")
